@@ -65,6 +65,45 @@ func c05wGen(rt *rapid.T) wProg {
 			}
 		}
 	}
+	// P2P: a participant unsubscribes and is invited back by the peer while the topic stays loaded: what
+	// the invitation announces is the new subscription's modes, not a difference to a subscription which is gone
+	if gPct(rt, 25) {
+		a, b := -1, -1
+		for k, u := range p.Sess {
+			if u == 0 && a < 0 {
+				a = k
+			}
+			if u == 1 && b < 0 {
+				b = k
+			}
+		}
+		if a >= 0 && b >= 0 {
+			if gPct(rt, 50) {
+				a, b = b, a
+			}
+			ta, tb := fmt.Sprintf("p%d", p.Sess[b]), fmt.Sprintf("p%d", p.Sess[a])
+			at := gInt(rt, 1, len(p.Ops), "at5")
+			ins := []wOp{{K: "sub", S: a, T: ta}, {K: "sub", S: b, T: tb, A: gPick(rt, []string{"", "JRWA", "JRWPA"}, "bwant")}, {K: "leave", S: b, T: tb, F: true},
+				{K: "set", S: a, T: ta, A: "given", U: p.Sess[b], B: gPick(rt, []string{"", "JRWPA", "JRWA", "JRPA"}, "reinvite")}, {K: "sub", S: b, T: tb}, {K: "get", S: b, T: tb, A: "desc"}}
+			p.Ops = append(p.Ops[:at], append(ins, p.Ops[at:]...)...)
+		}
+	}
+	// a subscriber whose mode is not the default one asks for the description of a topic which is not loaded
+	if gPct(rt, 30) {
+		s := gInt(rt, 0, len(p.Sess)-1, "offdesc")
+		var ins []wOp
+		for k := range p.Sess {
+			ins = append(ins, wOp{K: "leave", S: k, T: "g0"})
+		}
+		ins = append(ins, wOp{K: "tick", N: 5000}, wOp{K: "get", S: s, T: "g0", A: "desc"})
+		if p.Sess[s] <= 1 {
+			for k := range p.Sess {
+				ins = append(ins, wOp{K: "leave", S: k, T: fmt.Sprintf("p%d", 1-min(p.Sess[k], 1))})
+			}
+			ins = append(ins, wOp{K: "tick", N: 5000}, wOp{K: "get", S: s, T: fmt.Sprintf("p%d", 1-p.Sess[s]), A: "desc"})
+		}
+		p.Ops = append(p.Ops, ins...)
+	}
 	// default access changed one side at a time: the side left out (or sent empty) stays as it was
 	if gPct(rt, 45) {
 		at := gInt(rt, 1, len(p.Ops), "at2")
@@ -405,7 +444,7 @@ func (o *c05wObs) After(w *wWorld, st *wStep) *kit.Viol {
 				k.sess, texts, w.userIdx(target), route, st.Op.K, a.want, a.given, hadA, w1, g1, curW, curG)
 			sig := "acs-differences-do-not-add-up"
 			if blind {
-				sig = "delta-for-unannounced-subscription:" + route[:3]
+				sig = "delta-for-unannounced-subscription:" + route[:3] + ":" + st.Op.K
 			}
 			v := kit.V(sig, "%s", desc)
 			if o.known != nil && o.known(v) {
